@@ -102,3 +102,8 @@ def ancestors_after_intervening(self, interventions, outcomes):
 def without_effect_on(self, interventions, outcomes):
     # (V ∖ X) ∖ An(Y) in that same mutilated graph
     return set(self.nodes()) - interventions - self.remove_in_edges(interventions).ancestors_inclusive(outcomes)
+
+
+def as_interventions(variables):
+    # one intervention per given variable, in the order given: an Intervention stays what it is, a plain variable v becomes "v held at its value"
+    return tuple(v if isinstance(v, Intervention) else Intervention(name=v.name, star=False) for v in variables)
